@@ -261,11 +261,11 @@ SUBCHECKS = [
                   "value: returned value in the interval and rebuilt model reprices the target (1e-8 spot), or raises; "
                   "input model untouched; calibrated model = direct construction; non-trivial = default calibration or "
                   "parameter moved by > 1%",
-             strategy=strat_calib, budget={"quick": 240, "thorough": 4000}, shards={"quick": 16, "thorough": 16}),
+             strategy=strat_calib, budget={"quick": 720, "thorough": 4000}, shards={"quick": 16, "thorough": 16}),
     SubCheck("parameter-updates-stay-in-sync", body_params, classify_params,
              rule="operation lists over one Parameters object (assign valid value, assign invalid value, "
                   "initialisation()) then rebuild: cached fields, levy_exponent, measure integrals, omega and "
                   "process_drift equal those of a model constructed directly with the final values; invalid assignments "
                   "raise ValueError and leave the old value; non-trivial = >= 2 assignments before an initialisation",
-             strategy=strat_params, budget={"quick": 1200, "thorough": 20000}),
+             strategy=strat_params, budget={"quick": 3600, "thorough": 20000}),
 ]
